@@ -7,6 +7,7 @@ package fasta
 // verif:bound C13 two-builds clause: two one-record lists (symbolic 3-character names, 5 and 0|5 symbolic letters) built one after the other, both texts held and then read back
 // verif:bound C13 record lists of 1..3 records; names 3 symbolic bytes (printable ASCII); sequences of length 0, 1, 5, 65536 and 262144 (quick) plus 65535, 65537, 70000, 262143, 300000 (thorough), every letter symbolic over A-Z a-z * -
 // verif:bound C13 re-wrapping: the harness's own writer with line widths 1, 3, 60, optional blank lines, ';' comment lines and CRLF line ends
+// verif:bound C13 long-line clause: a sequence written on ONE line of 65535 or 65536 (quick) / 65534..65537, 131071, 131072 (thorough) symbolic letters, LF or CRLF line ends
 // verif:bound C13 streaming: channel capacities 0, 1, 1000; schedules explored at synchronisation-point granularity (default run-to-block schedule, its LIFO mirror, and all schedules deviating from it at <= 2 (quick) / 3 (thorough) choice points)
 // verif:assume C13 bufio.Scanner is modelled (ScanLines; a line that does not fit the 64 KiB buffer ends scanning with ErrTooLong unless Scanner.Buffer raised the limit); bytes.Reader/bytes.Buffer modelled; Go's channel FIFO semantics trusted
 // verif:bound C13 outside the claim: gzip (ReadGz*), files, the race detector, pre-emption between synchronisation points, more than 3 records, sequences longer than 300000
@@ -95,6 +96,24 @@ func Harness_C13_LongSequence() {
 }
 
 // the harness's own writer: arbitrary wrapping, blank lines, comments, CRLF
+// one sequence line as long as the scanner's initial buffer, with CRLF line ends
+func Harness_C13_LongLineCRLF() {
+	lens := []int{65535, 65536}
+	if vTier(0, 1) == 1 {
+		lens = []int{65534, 65535, 65536, 65537, 131071, 131072}
+	}
+	l := lens[vChoice(len(lens))]
+	recs := []Fasta{{vBytes(2, c13Printable()), vBytes(l, c13Letters)}, {"z", vBytes(3, c13Letters)}}
+	vAssume(vNot(vEqStr(recs[0].Name[1:], "\r")))
+	crlf := vChoice(2) == 1
+	var back []Fasta
+	panicked := vPanics(func() { back = Parse(bytes.NewReader(c13Write(recs, l, false, false, crlf))) })
+	vAssert(!panicked, "rewrapped-read-does-not-panic")
+	if !panicked {
+		c13Same(recs, back, "long-line")
+	}
+}
+
 func c13Write(recs []Fasta, width int, blank, comment, crlf bool) []byte {
 	nl := "\n"
 	if crlf {
